@@ -125,6 +125,10 @@ async def tcp_messages(n_msgs, marks_at):
         async def bad(self) -> str:
             return "a str reply cannot be written in the byte format: the reply task fails"
 
+        @RegexCommand(rb"H=(\d+)", interrupt=True)
+        async def seth(self, v: int) -> None:
+            return None    # a command that sends no reply (like the shipped remote-controlled example's setters)
+
     interrupts = []
 
     async def raise_interrupt():
@@ -141,7 +145,7 @@ async def tcp_messages(n_msgs, marks_at):
                 return b""
             self.n += 1
             await asyncio.sleep(0)
-            return b"P=%d" % self.n if self.n % 3 == 0 else (b"Q?" if self.n % 3 == 1 else b"BAD")
+            return (b"P=%d" % self.n, b"Q?", b"BAD", b"H=%d" % self.n)[self.n % 4]
 
     class Writer:
         def __init__(self):
@@ -175,7 +179,8 @@ async def tcp_messages(n_msgs, marks_at):
             if m not in marks and r.n >= m:
                 gc.collect()
                 marks[m] = {"live_tasks": len([x for x in asyncio.all_tasks(loop) if not x.get_name().startswith("harness")]),
-                            "retained_done_tasks": sum(1 for o in gc.get_objects() if isinstance(o, asyncio.Task) and o.done())}
+                            "retained_done_tasks": sum(1 for o in gc.get_objects() if isinstance(o, asyncio.Task) and o.done()),
+                            "pending_timers": len([h for h in loop._scheduled if not h._cancelled])}
         if t.done():
             break
     r.gate.set()
